@@ -177,6 +177,21 @@ def monitor(ctx, extended=False):
                 desc2 = dict(G.describe(pl), history=f'grade line at Q, then direct edit ({kind}), then grade line at the same Q')
                 check_line(ctx, pl, Q, Q, desc2)
                 k += 1
+            if ctx.rng.random() < 0.4:
+                # history on the non-positive-flow convention: grade line at Q <= 0, a section edited in place, grade line at Q <= 0 again - each evaluated at the
+                # minimum-friction flow of the pipeline as it is THEN
+                fl0 = [Pipe(diameter=pl.slurry.Dp).flow(v) for v in pl.slurry.vls_list]
+                check_line(ctx, pl, ctx.rng.choice([0, -1, 0.0]), pl.qimin(fl0), dict(G.describe(pl), history='grade line at Q <= 0'))
+                pipes_ = [x for x in pl.pipesections if isinstance(x, Pipe) and x.length > 0]
+                if pipes_:
+                    tgt = ctx.rng.choice(pipes_)
+                    if ctx.rng.random() < 0.5:
+                        tgt.length *= ctx.rng.choice([0.25, 3.0, 6.0])
+                    else:
+                        tgt.total_K += ctx.rng.choice([5.0, 12.0])
+                    check_line(ctx, pl, ctx.rng.choice([0, -1]), pl.qimin(fl0),
+                               dict(G.describe(pl), history='grade line at Q <= 0, then a section edited in place (length or K), then grade line at Q <= 0 again'))
+                    k += 1
             dias = sorted({x.diameter for x in pl.pipesections if isinstance(x, Pipe)})
             other = [x for x in dias if x != pl.pipesections[-1].diameter]
             if other and ctx.rng.random() < 0.7:
